@@ -4,6 +4,7 @@
 -/
 import PgmVerif.Model.Indep
 import PgmVerif.Proofs.CI
+import PgmVerif.Proofs.MassBound
 import Mathlib.Tactic.FieldSimp
 import Mathlib.Tactic.Ring
 import Mathlib.Algebra.Order.Field.Rat
@@ -300,5 +301,25 @@ theorem C18_ci_scale_invariant (c pxyz pxz pyz pz : Rat) (hc : c ≠ 0) :
     calc (c * pxyz) * (c * pz) = (c * c) * (pxyz * pz) := by ring
       _ = (c * c) * (pxz * pyz) := by rw [h]
       _ = (c * pxz) * (c * pyz) := by ring
+
+
+theorem marg_const_mul (K : Var → Nat) (V : List Var) (c : Rat) (P : Asg → Rat) (S : List Var) (a : Asg) :
+    marg K V (fun b => c * P b) S a = c * marg K V P S a := by
+  unfold marg
+  rw [sumOut_const_mul]
+
+/-- **independence does not see the normalising constant**: a table and any non-zero multiple of it (the joint restricted to a
+    context before and after `normalize`, however improbable the context) satisfy exactly the same statements X ⟂ Y | Z -/
+theorem C18_ci_unnormalised (K : Var → Nat) (V : List Var) (P : Asg → Rat) (c : Rat) (hc : c ≠ 0) (X Y Z : List Var) :
+    CI K V (fun b => c * P b) X Y Z ↔ CI K V P X Y Z := by
+  unfold CI
+  constructor
+  · intro h a ha
+    have := h a ha
+    rw [marg_const_mul, marg_const_mul, marg_const_mul, marg_const_mul] at this
+    exact (C18_ci_scale_invariant c _ _ _ _ hc).mp this
+  · intro h a ha
+    rw [marg_const_mul, marg_const_mul, marg_const_mul, marg_const_mul]
+    exact (C18_ci_scale_invariant c _ _ _ _ hc).mpr (h a ha)
 
 end PgmVerif
